@@ -34,6 +34,36 @@ type Board struct {
 	errMu  sync.Mutex
 	Errs   []string
 	Panics []string
+	// Tap, when set, is asked for a StreamTap for every stream that is opened (after Filter);
+	// an error refuses the stream (the opener's NewStream fails).
+	Tap func(from, to boson.Address, protocol, stream string) (StreamTap, error)
+	// handlers counts running stream handlers (WaitHandlers).
+	handlers sync.WaitGroup
+}
+
+// StreamTap observes and may alter the traffic of one stream (fault injection on request of a
+// scenario). dir 0 = opener -> handler, dir 1 = handler -> opener.
+type StreamTap interface {
+	// Write is called with the bytes of every Write before they are queued. It returns the bytes
+	// to queue instead (nil/empty = nothing), or err != nil: the writer's Write fails with err
+	// and nothing is queued. With lose the bytes are discarded, the writer sees success and the
+	// reader's side of this direction is reset (a message lost in transit).
+	Write(dir int, b []byte) (out []byte, lose bool, err error)
+	// Sync tells whether a Write in this direction returns only after the reader has consumed
+	// the bytes (or the stream was reset/closed by the reader), like an unbuffered connection.
+	Sync(dir int) bool
+}
+
+// WaitHandlers waits until no stream handler is running (or the timeout passed; false then).
+func (b *Board) WaitHandlers(timeout time.Duration) bool {
+	done := make(chan struct{})
+	go func() { b.handlers.Wait(); close(done) }()
+	select {
+	case <-done:
+		return true
+	case <-time.After(timeout):
+		return false
+	}
 }
 
 func NewBoard() *Board { return &Board{nodes: make(map[string]*Port)} }
@@ -99,10 +129,24 @@ func (p *Port) NewStream(ctx context.Context, address boson.Address, h p2p.Heade
 	if hd == nil {
 		return nil, ErrNoHandler
 	}
+	// hold mode (hold.go): the message is queued instead of delivered; a scenario delivers / drops / duplicates it
+	if hb := holdOf(p.board); hb != nil && hb.matches(protocol, stream) {
+		return hb.open(p, peer, hd, h, protocol, stream), nil
+	}
+	var tap StreamTap
+	if p.board.Tap != nil {
+		t, err := p.board.Tap(p.addr, address, protocol, stream)
+		if err != nil {
+			return nil, err
+		}
+		tap = t
+	}
 	ab, ba := newPipe(), newPipe()
-	local := &Stream{r: ba, w: ab, headers: h}
-	remote := &Stream{r: ab, w: ba, headers: h}
+	local := &Stream{r: ba, w: ab, headers: h, tap: tap, dir: 0}
+	remote := &Stream{r: ab, w: ba, headers: h, tap: tap, dir: 1}
+	p.board.handlers.Add(1)
 	go func() {
+		defer p.board.handlers.Done()
 		// a panicking stream handler must not take the driver process down: it is
 		// recorded (Board.Panics) and the stream is reset, as if the peer had died
 		defer func() {
@@ -200,6 +244,20 @@ func (p *pipe) doReset() {
 	p.mu.Unlock()
 }
 
+// waitDrained returns when the reader has taken everything queued, or the pipe was reset.
+func (p *pipe) waitDrained() {
+	deadline := time.Now().Add(fullCloseLimit)
+	for time.Now().Before(deadline) {
+		p.mu.Lock()
+		done := len(p.buf) == 0 || p.reset
+		p.mu.Unlock()
+		if done {
+			return
+		}
+		time.Sleep(50 * time.Microsecond)
+	}
+}
+
 func (p *pipe) isClosed() bool {
 	p.mu.Lock()
 	defer p.mu.Unlock()
@@ -210,10 +268,33 @@ func (p *pipe) isClosed() bool {
 type Stream struct {
 	r, w    *pipe
 	headers p2p.Headers
+	tap     StreamTap // optional
+	dir     int       // 0: the opener's end, 1: the handler's end
 }
 
-func (s *Stream) Read(b []byte) (int, error)  { return s.r.read(b) }
-func (s *Stream) Write(b []byte) (int, error) { return s.w.write(b) }
+func (s *Stream) Read(b []byte) (int, error) { return s.r.read(b) }
+func (s *Stream) Write(b []byte) (int, error) {
+	if s.tap == nil {
+		return s.w.write(b)
+	}
+	out, lose, err := s.tap.Write(s.dir, b)
+	if err != nil {
+		return 0, err
+	}
+	if lose {
+		s.w.doReset()
+		return len(b), nil
+	}
+	if len(out) > 0 {
+		if _, err := s.w.write(out); err != nil {
+			return 0, err
+		}
+		if s.tap.Sync(s.dir) {
+			s.w.waitDrained()
+		}
+	}
+	return len(b), nil
+}
 func (s *Stream) Close() error                { s.w.close(); return nil }
 func (s *Stream) Headers() p2p.Headers        { return s.headers }
 func (s *Stream) ResponseHeaders() p2p.Headers { return s.headers }
